@@ -88,6 +88,11 @@ struct S<T: Scalar> {
 }
 
 fn check<T: Scalar>(spec: &Spec, alpha: &[f64], depth: usize, st: &mut Stats, sink: &Sink) {
+    check_from::<T>(spec, &[], alpha, depth, st, sink)
+}
+
+/// as `check`, but the TREE grows from the state a base history leaves behind (larger windows)
+fn check_from<T: Scalar>(spec: &Spec, base: &[f64], alpha: &[f64], depth: usize, st: &mut Stats, sink: &Sink) {
     let trs = transforms(spec.kind, T::EXACT);
     let c0 = T::inexact();
     let img: Vec<Dyn<T>> = trs
@@ -101,15 +106,10 @@ fn check<T: Scalar>(spec: &Spec, alpha: &[f64], depth: usize, st: &mut Stats, si
             }
         })
         .collect();
-    let root = S { base: build::<T>(spec), img, tainted: T::inexact() > c0 };
+    let mut root = S { base: build::<T>(spec), img, tainted: T::inexact() > c0 };
     st.configs += 1;
     let k = spec.n + 1;
-    tree::<T, S<T>>(
-        &root,
-        alpha,
-        depth,
-        st,
-        &mut |s, hist, st| {
+    let mut stepf = |s: &mut S<T>, hist: &[f64], st: &mut Stats| -> Step {
             let c0 = T::inexact();
             let xf = *hist.last().unwrap();
             let x = T::of(xf);
@@ -183,6 +183,30 @@ fn check<T: Scalar>(spec: &Spec, alpha: &[f64], depth: usize, st: &mut Stats, si
                 }
             }
             Step::Go
+    };
+    for i in 0..base.len() {
+        match crate::explore::guard(|| stepf(&mut root, &base[..=i], st)) {
+            Ok(Step::Go) => {}
+            Ok(Step::Prune) => return,
+            Err(m) => {
+                sink.push(Violation::new("C12", spec, "panicked", T::NAME, &base[..=i], m));
+                return;
+            }
+        }
+    }
+    tree::<T, S<T>>(
+        &root,
+        alpha,
+        depth,
+        st,
+        &mut |s, hist, st| {
+            if base.is_empty() {
+                stepf(s, hist, st)
+            } else {
+                let mut full = base.to_vec();
+                full.extend_from_slice(hist);
+                stepf(s, &full, st)
+            }
         },
         &mut |hist, msg| sink.push(Violation::new("C12", spec, "panicked", T::NAME, hist, msg)),
     );
@@ -241,6 +265,28 @@ pub fn run(ctx: &Ctx) -> CheckOutput {
                     check::<f64>(&spec, &D4, depth.min(7), &mut st, &sink);
                 }
                 JobOut { stats: st, viols: sink.take(), samples: vec![json!({"explorer":"TREE","scalar":"f64","view":spec.name(),"depth":depth,"comparison":"bit-exact","transforms":format!("{:?}", transforms(spec.kind, false))})] }
+            }));
+        }
+    }
+    // larger windows: suffix trees grown from base histories
+    for kind in AFFINE.iter().chain(SCALE_INV.iter()).chain(SCALE_EQ.iter()) {
+        let e = crate::spec::entry(*kind);
+        if !e.has_n || e.positive_domain {
+            continue;
+        }
+        for n in if quick { vec![7usize, 12] } else { vec![7, 9, 12, 16, 20] } {
+            let spec = mk(*kind, n, Spec::echo());
+            jobs.push(Box::new(move || {
+                let mut st = Stats::default();
+                let sink = Sink::new();
+                for b in bases(n) {
+                    check_from::<f64>(&spec, &b, &Z5, if quick { 4 } else { 6 }, &mut st, &sink);
+                    if !quick {
+                        Q::reset();
+                        check_from::<Q>(&spec, &b, &Z3, 4, &mut st, &sink);
+                    }
+                }
+                JobOut { stats: st, viols: sink.take(), samples: vec![] }
             }));
         }
     }
